@@ -43,6 +43,8 @@ pub fn set_select_filter(f: Option<Box<dyn Fn(usize) -> bool>>) {
 pub async fn tick() {
 	NOW.with(|n| n.set(n.get() + 1));
 	tokio::time::advance(TICK).await;
+	// `advance` yields once internally: a runnable task may have been polled
+	POLLS.with(|p| p.set(p.get() + 1));
 }
 
 pub struct Livelock;
